@@ -9,6 +9,7 @@
 
 static int g_thorough;
 static int g_lite;
+static int g_plant;      /* self-test: the reference image is deliberately wrong in one byte */
 static int g_off = -1;      /* C15: >= 0 places every PDU at a 16-byte boundary + g_off (always with a trailing canary) */
 static int g_slice = 0, g_nslices = 1;
 static uint64_t g_unit;
@@ -97,6 +98,7 @@ static void c06_case(int packed, int len, int idi)
     rset(em, fld(fmt, "eff"), id > 0x7FF);
     rset(em, fld(fmt, "fdf"), (uint64_t)variant);
     rset(em, fld(fmt, "can_identifier"), id);
+    if (g_plant && len > 0) em[hdr] ^= 0x80;
     SETCS("C06", 0, packed, len, idi, 0, 0, 0);
     g_cnt.cases++; g_cnt.nontrivial++;
     hs_add(fnv(msg, (size_t)hdr, fnv(src, (size_t)len, (uint64_t)packed * 131 + (uint64_t)idi)));
@@ -330,10 +332,12 @@ int main(int argc, char** argv)
         else if (!strcmp(argv[i], "--off")) g_off = atoi(argv[++i]) & 15;
         else if (!strcmp(argv[i], "--slice")) sscanf(argv[++i], "%d/%d", &g_slice, &g_nslices);
         else if (!strcmp(argv[i], "--case")) csarg = argv[++i];
+        else if (!strcmp(argv[i], "--plant")) g_plant = 1;
     }
     setvbuf(stdout, NULL, _IOFBF, 1 << 16);
     fault_install();
     guarded_alloc(&gA, 40); guarded_alloc(&gB, 40); guarded_alloc(&gC, 40);
+    if (g_plant) { g_max_per_key = 0; for (int len = 0; len <= 16; len++) c06_case(0, len, 3); emit_counters("PLANT"); return 0; }
     if (csarg) {
         g_verbose = 1;
         char buf[256], su[8]; long long p[8] = {0};
